@@ -130,7 +130,7 @@ def constructLabeledCommitments : List (Label × Option Nat) → List F → Exce
   | (l, some d) :: info, c :: s :: es =>
     match constructLabeledCommitments info es with
     | .error e => .error e
-    | .ok cs => .ok (⟨l, ⟨s, some c⟩, some d⟩ :: cs)
+    | .ok cs => .ok (⟨l, ⟨c, some s⟩, some d⟩ :: cs)
   | (l, none) :: info, c :: es =>
     match constructLabeledCommitments info es with
     | .error e => .error e
